@@ -42,10 +42,45 @@ Theorem C17_call_results :
 Proof. exact (syscall_results cap peer). Qed.
 
 (* (ii) no missed readiness edge: when nobody has an internal step left, no caller is suspended while the kernel has
-   data (or end of stream) for it as a reader, or space for it as a writer *)
+   data (or end of stream) for it as a reader, space for it as a writer, a connection in the backlog for it as an
+   acceptor, or the outcome of its attempt as a connector (`avail`) *)
 Theorem C17_no_missed_edge :
   forall s a, Reach s -> Quiescent s -> apc (A s a) = Susp -> ~ avail cap peer s (A s a).
 Proof. exact (no_missed_edge cap peer selof fixB fixD calm peer_inv). Qed.
+
+(* (ii) for accept: no acceptor stays suspended while a connection is waiting in the backlog of its listener (K5) *)
+Theorem C17_no_missed_accept :
+  forall s a, Reach s -> Quiescent s -> apc (A s a) = Susp -> akind (A s a) = Ac -> kq (Kn s (afd (A s a))) = [].
+Proof. exact (no_missed_accept cap peer selof fixB fixD calm peer_inv). Qed.
+
+(* (ii) for connect: no connector stays suspended after the kernel has established its connection or failed the
+   attempt (K6) *)
+Theorem C17_no_missed_connect :
+  forall s a, Reach s -> Quiescent s -> apc (A s a) = Susp -> akind (A s a) = Co ->
+  kst (Kn s (afd (A s a))) <> CEst /\ forall e, kst (Kn s (afd (A s a))) <> CRef e.
+Proof. exact (no_missed_connect cap peer selof fixB fixD calm peer_inv). Qed.
+
+(* accept / connect, one call: accept returns exactly the head of the backlog and removes it (no event: nobody waits for
+   room in a backlog); connect reports success only for a connection the kernel has established (and leaves the socket
+   connected; a connect that completes at once has put the connection into the listener's backlog, with a readable
+   event for the listener if the backlog was empty), and an error e only when the kernel failed the attempt with e *)
+Theorem C17_accept_connect_results :
+  forall s x m r kn' ev, syscall cap peer s x m = SysK r kn' ev ->
+  let f := afd x in
+  match r with
+  | RAcc c => akind x = Ac /\ kq (Kn s f) = c :: kq (kn' f) /\ kacc (kn' f) = kacc (Kn s f) ++ [c] /\ ev = None
+  | RConn => akind x = Co /\ kst (kn' f) = CConn /\
+             (kst (Kn s f) = CEst \/ kst (Kn s f) = CConn \/
+              (kst (Kn s f) = CNone /\ m = 1 /\ kq (kn' (an x)) = kq (Kn s (an x)) ++ [f] /\ (kq (Kn s (an x)) = [] -> ev = Some (an x))))
+  | RErr e => akind x = Co /\ (kst (Kn s f) = CRef e \/ (kst (Kn s f) = CNone /\ m = S (S e)))
+  | _ => False
+  end.
+Proof. exact (syscall_results_k cap peer). Qed.
+
+(* the connections accept has returned on a listener so far, followed by its backlog, are exactly the connections that
+   entered the backlog, in the order of arrival: none lost, none returned twice *)
+Theorem C17_backlog_fifo : forall s f, Reach s -> kest (Kn s f) = kacc (Kn s f) ++ kq (Kn s f).
+Proof. exact (backlog_fifo cap peer selof fixB fixD calm). Qed.
 
 (* (ii) the wake token of a suspended caller exists exactly once: the caller is suspended iff the token is somewhere,
    and `ahome` determines the one place (a `co` slot, a selector, a kernel half, or the run queue) *)
@@ -70,6 +105,10 @@ Print Assumptions C17_stream_preserved.
 Print Assumptions C17_zero_only_at_end_of_stream.
 Print Assumptions C17_call_results.
 Print Assumptions C17_no_missed_edge.
+Print Assumptions C17_no_missed_accept.
+Print Assumptions C17_no_missed_connect.
+Print Assumptions C17_accept_connect_results.
+Print Assumptions C17_backlog_fifo.
 Print Assumptions C17_wake_token_unique.
 Print Assumptions C17_wake_token_in_cancel.
 
@@ -105,6 +144,51 @@ Example C17_nonvacuous_wake :
                                Resume 0; Step 0 0; Step 0 0; Step 0 0; Step 0 0; Step 0 2]) with
   | Some s => alast (A s 0) = Some (ROk [7; 8]) /\ alast (A s 1) = Some (RWrote 3) /\ buf (P s 0) = [9] /\
               sent (P s 0) = [7; 8; 9] /\ rcvd (P s 0) = [7; 8]
+  | None => False
+  end.
+Proof. vm_compute. repeat split. Qed.
+
+(* ---- accept / connect ------------------------------------------------------------------------------------------ *)
+(* an acceptor (actor 0, listener 4) finds the backlog empty and suspends; a connector (actor 1, descriptor 6, timeout
+   2000 as UnixStream::connect arms it) gets EINPROGRESS and suspends: quiescent, neither wake condition holds *)
+Definition blocked_accept_connect :=
+  [Start 0 4 Ac true None [] 0; Step 0 0; Step 0 0; Step 0 0; Sub 0 false; Sub 0 false; Sub 0 false; Sub 0 false;
+   Start 1 6 Co true (Some 2000) [] 4; Step 1 0; Step 1 0; Sub 1 false; Sub 1 false; Sub 1 false; Sub 1 false; Sub 1 false].
+Example C17_nonvacuous_accept_connect_quiescent :
+  exists s, run2 blocked_accept_connect = Some s /\ Quiescent s /\ apc (A s 0) = Susp /\ akind (A s 0) = Ac /\ co s 4 = Some 0 /\
+            apc (A s 1) = Susp /\ akind (A s 1) = Co /\ co s 6 = Some 1 /\ kst (Kn s 6) = CProg /\ kq (Kn s 4) = [].
+Proof.
+  eexists. split; [vm_compute; reflexivity|]. split; [|repeat split; reflexivity].
+  unfold Quiescent. cbn. repeat split.
+  - destruct a as [|[|a]]; cbn; auto.
+  - destruct a as [|[|a]]; reflexivity.
+  - intros k L. destruct k as [|[|k]]; [reflexivity | reflexivity | lia].
+Qed.
+(* the kernel establishes the connection: events for both descriptors; the selectors take and schedule both callers;
+   connect returns Ok (the socket is connected), accept returns the connection of descriptor 6 and the backlog is empty *)
+Example C17_nonvacuous_accept_connect_wake :
+  match run2 (blocked_accept_connect ++
+              [Establish 6; Deliver 6; SelEvent 0 6; SelTake 0; SelDisarm 0 true; SelEvent 0 4; SelTake 0; SelDisarm 0 false;
+               Resume 1; Step 1 0; Step 1 0; Step 1 0; Step 1 0; Step 1 0;
+               Resume 0; Step 0 0; Step 0 0; Step 0 0; Step 0 0; Step 0 0]) with
+  | Some s => alast (A s 1) = Some RConn /\ alast (A s 0) = Some (RAcc 6) /\ kst (Kn s 6) = CConn /\ kq (Kn s 4) = [] /\
+              kest (Kn s 4) = [6] /\ kacc (Kn s 4) = [6] /\ tmr s 6 = None
+  | None => False
+  end.
+Proof. vm_compute. repeat split. Qed.
+(* the kernel refuses the attempt (error 111): the connector is woken and connect returns that error *)
+Example C17_nonvacuous_connect_refused :
+  match run2 (blocked_accept_connect ++
+              [Refuse 6 111; SelEvent 0 6; SelTake 0; SelDisarm 0 true; Resume 1; Step 1 0; Step 1 0; Step 1 0; Step 1 0; Step 1 0]) with
+  | Some s => alast (A s 1) = Some (RErr 111) /\ kst (Kn s 6) = CNone /\ apc (A s 0) = Susp
+  | None => False
+  end.
+Proof. vm_compute. repeat split. Qed.
+(* a unix-socket connect completes at once: the connection is in the backlog when the call returns, the suspended
+   acceptor's listener gets its event *)
+Example C17_nonvacuous_connect_at_once :
+  match run2 (firstn 8 blocked_accept_connect ++ [Start 1 6 Co true (Some 2000) [] 4; Step 1 1]) with
+  | Some s => alast (A s 1) = Some RConn /\ apc (A s 1) = Idle /\ kq (Kn s 4) = [6] /\ pend s 4 = true
   | None => False
   end.
 Proof. vm_compute. repeat split. Qed.
